@@ -94,11 +94,11 @@ theorem c15_slicing (id : XzVerif.Simple.FilterId) (enc : Bool) (next : XzVerif.
     · exact ⟨input.length + 1, by omega, fun h' => absurd h' h⟩
   obtain ⟨lim, hl1, hl2⟩ := hlim
   have hc := bcj_contract id enc lim hl2
-  have hinv : SRunInv (bcjFilter id enc) lim (X86State.init, off) input (NullG input) input.length
+  have hinv : SRunInv (bcjFilter id enc) lim (X86State.init, off) input (NullG input) (fun _ => True) input.length
       (runSliced (coderOf c₀) fin sl (Run.init (Coder.Simple.init (X86State.init, off) ()) input)) := by
     unfold coderOf
     rw [i3, i4]
-    exact (SRunInv.init (bcjFilter id enc) lim (X86State.init, off) input (NullG input) input hl1 () (by simp [NullG])).sliced hc
+    exact (SRunInv.init (bcjFilter id enc) lim (X86State.init, off) input (NullG input) (fun _ => True) input hl1 () (by simp [NullG])).sliced hc
       (nullLaw (endsAtFinish c₀) fin input) c₀.allocated sl
   rw [← hmap] at hinv
   have hres := hinv.result_null
